@@ -62,6 +62,33 @@ func runC01(c *ShardCtx) {
 		}
 		runGrammar(c, wrap(body), fam2)
 	}
+	// family 2b: hyphens in every position of a class (first, last, after a range, escaped, between a
+	// character and a range): which runes the generated parser accepts, against classes stated
+	// item by item
+	{
+		mk := func(src string, inv bool, items ...string) *peg.Expr {
+			e := peg.Cls(inv, false, items...)
+			e.Src = src
+			return e
+		}
+		hy := []*peg.Expr{
+			mk("[ab-d-z]", false, "a", "b-d", "-", "z"), mk("[-a-c]", false, "-", "a-c"), mk("[a-c-]", false, "a-c", "-"), mk("[a-c-e]", false, "a-c", "-", "e"),
+			mk(`[a\-c]`, false, "a", "-", "c"), mk("[_a-c-.]", false, "_", "a-c", "-", "."), mk("[+0-9-e]", false, "+", "0-9", "-", "e"), mk("[^ab-d-z]", true, "a", "b-d", "-", "z"),
+			mk("[a-c-e-g]", false, "a-c", "-", "e-g"), mk("[--0]", false, "--0"), mk("[a--]", false, "a", "-", "-"),
+		}
+		var ins [][]byte
+		for _, r := range "abcdefgz-_.+,/059" {
+			ins = append(ins, []byte(string(r)), []byte(string(r)+"-"))
+		}
+		famH := &family{gens: gens4, inputs: ins, opts: []rtapi.RunOpts{{MaxExpr: 100}}, nontrivial: func(ref *peg.Result, _ *rtapi.Obs) bool { return ref.Matched }, confEvery: 3, confQuota: 1}
+		for _, h := range hy {
+			idx++
+			if !c.Mine(idx) {
+				continue
+			}
+			runGrammar(c, wrap(peg.Seq(h.Clone(), peg.Opt(h.Clone()))), famH)
+		}
+	}
 	// family 3: two rules, every entrypoint
 	leaves3 := []*peg.Expr{peg.Lit("a"), peg.Cls(false, false, "a", "b"), peg.Any(), peg.Ref("A")}
 	en3 := peg.NewEnumerator(peg.Alphabet{Leaves: leaves3, Unary: allUnary, Seq: true, Choice: true, MaxArity: 2})
